@@ -1057,3 +1057,278 @@ def replay_mut(rec):
     if r['msg']:
         return '%s on mutant "%s" of %s: %s [%s]' % (rec['fn'], rec.get('label'), rec.get('target'), r['msg'], r['kind'])
     return None
+
+# ================================================================================================ crash reports without the in-process symbolizer
+_sym_cache = {}
+def symbolize(stderr):
+    """the sub-exploration runs with symbolize=0 (a report costs milliseconds, not a second); the frames inside the
+    library are resolved here, once per distinct address"""
+    import subprocess
+    fr = re.findall(r'#(\d+) 0x[0-9a-f]+ +\((\S+?)\+0x([0-9a-f]+)\)', stderr)
+    out = []
+    for idx, mod, off in fr[:8]:
+        if 'libbee2v' not in mod:
+            continue
+        k = (mod, off)
+        if k not in _sym_cache:
+            try:
+                r = subprocess.run(['/usr/bin/llvm-symbolizer-14', '--obj=' + mod, '--functions=short', '--no-inlines', '0x' + off],
+                                   stdout=subprocess.PIPE, stderr=subprocess.DEVNULL, text=True, timeout=60)
+                ls = r.stdout.strip().splitlines()
+                _sym_cache[k] = (ls[0] if ls else '?', ls[1] if len(ls) > 1 else '')
+            except Exception:
+                _sym_cache[k] = ('?', '')
+        out.append(_sym_cache[k])
+    return out
+
+def crash_info(r, label=''):
+    """pmap crash record -> (root-cause key, message)"""
+    err = r.get('stderr', '') or ''
+    m = re.search(r'Assertion in (\S+?)::(\d+)', err)
+    if m:
+        return 'crash:assert:%s' % os.path.basename(m.group(1)), 'built-in self-check fired: Assertion in %s line %s' % (m.group(1), m.group(2))
+    m = re.search(r'ERROR: AddressSanitizer: (\S+)', err)
+    if m:
+        kind = m.group(1)
+        acc = re.search(r'(READ|WRITE) of size (\d+)', err)
+        fr = [f for f in symbolize(err) if not f[0].startswith('vh_')]
+        if not fr:
+            fr = [(f, '') for f in re.findall(r'#\d+ 0x[0-9a-f]+ in (\w+) ', err) if not f.startswith(('__', 'vh_')) and f not in ('memcpy', 'memmove', 'memcmp', 'memset')]
+        names = [f[0] for f in fr]
+        top = names[0] if names else '?'
+        msg = 'AddressSanitizer: %s (%s) in %s %s (stack: %s)' % (kind, ' of size '.join(acc.groups()) if acc else '?', top, fr[0][1].split('/')[-1] if fr else '', ' < '.join(names[:5]))
+        if 'derTSIZEDec' in names[:2]:
+            return 'der:TSIZE-value-absent-or-short', msg
+        if mut_class(label).startswith('len:SIZE_MAX-k') and any(f.startswith('der') for f in names[:3]):
+            return 'der:length-near-SIZE_MAX-wraps', msg
+        if 'derSIDDec2' in names[:2]:
+            return 'der:OIDDec2-reads-past-the-end-of-the-expected-identifier', msg
+        return 'crash:asan:%s:%s' % (kind, top), msg
+    if r.get('crash') == 'timeout':
+        return 'crash:timeout', 'does not terminate within the case timeout'
+    return 'crash:%s' % r.get('crash'), 'crashed (%s): %s' % (r.get('crash'), err[-300:])
+
+# ================================================================================================ the exploration
+def corpus_job(item):
+    msg, ret = common.check_ref_case(item, CFG)
+    return {'msg': msg, 'ret': ret}
+
+def oid_job(item):
+    label, s = item
+    L = common.lib(CFG)
+    which = (1 << D_TL) | (1 << D_DEC) | (1 << D_OID) | (1 << D_OIDFROM) | (1 << D_ISVALID)
+    out = ctypes.create_string_buffer(176)
+    L.dll.vh_c08_der1(ctypes.c_char_p(s), ctypes.c_uint64(len(s)), ctypes.c_int(1), ctypes.c_uint32(which), ctypes.c_uint32(0), out)
+    oob = struct.unpack_from('<I', out.raw)[0]
+    out0 = ctypes.create_string_buffer(176)
+    L.dll.vh_c08_der1(ctypes.c_char_p(s), ctypes.c_uint64(len(s)), ctypes.c_int(0), ctypes.c_uint32(which), ctypes.c_uint32(oob), out0)
+    F = Findings()
+    for key, fn, kind, detail in der_judge(s, out.raw, which):
+        F.add(key, (len(s), s.hex(), DNAME.index(fn)), {'cfg': CFG, 'kind': 'der', 'hex': s.hex(), 'which': which},
+              '%s(%s) [OID mutant "%s"]: %s [%s]' % (fn, s.hex(), label, detail, kind), fn)
+    return {'n': 1, 'find': F.d, 'accepted': int(out.raw[8 + 14 * D_OIDFROM] != 0xFF)}
+
+def sub(tier, what, outpath):
+    """runs inside a child of run(): sanitizer runtime preloaded, reports unsymbolized"""
+    import json
+    global CFG
+    t00 = time.time()
+    common.lib(CFG)                     # loaded once, inherited by every forked worker
+    F = Findings()
+    parts = {}
+    outcomes = {}
+    samples = []
+    harness = []
+    deadline = t00 + (400 if tier == 'quick' else 3000)
+    capped = []
+    def run_jobs(name, jobs, fn, describe, timeout=600):
+        if time.time() > deadline:
+            capped.append(name); return
+        t0 = time.time()
+        res = vf.pmap(fn, jobs, case_timeout=timeout)
+        n = acc = 0
+        for j, r in zip(jobs, res):
+            if 'harness_error' in r:
+                harness.append('%s: %s' % (name, r['harness_error'][-600:])); continue
+            if 'crash' in r:
+                k, m = crash_info(r)
+                F.add(k, (0, describe(j), 0), {'cfg': CFG, 'kind': 'job', 'part': name, 'job': jsonable(j)}, '%s %s: %s' % (name, describe(j), m), name)
+                continue
+            F.merge(r['find']); n += r['n']
+            a = r['accepted']
+            acc += sum(a) if isinstance(a, list) else a
+        parts[name] = dict(states=n, transitions=n, traces_validated_against_impl=n, evaluations=n, accepted=acc, jobs=len(jobs), wall_s=round(time.time() - t0, 1))
+    # A
+    dj = der_jobs(tier, CFG)
+    run_jobs('A_der_strings', dj, der_job, lambda j: 'prefix %s + %d octets' % (j[1].hex(), j[2]))
+    if 'A_der_strings' in parts:
+        parts['A_der_strings']['decoder_calls'] = parts['A_der_strings']['states'] * 20
+    # B
+    run_jobs('B_char_strings', chr_jobs(tier, CFG), chr_job, lambda j: 'prefix %r + %d chars' % (j[1], j[2]))
+    # C
+    run_jobs('C_apdu_strings', apdu_jobs(tier, CFG), apdu_job, lambda j: 'prefix %s + %d octets' % (j[1].hex(), j[2]))
+    run_jobs('C_apdu_forms', apdu_form_cases(), apdu_form_job, lambda j: j[:12].hex())
+    # D
+    tags = tag_alphabet(tier)
+    run_jobs('D_tag_words', [(i, tags[i:i + 4096]) for i in range(0, len(tags), 4096)], tagsweep_job, lambda j: 'tags from index %d' % j[0])
+    run_jobs('D_encoders', enc_cases(tier), enc_job, lambda j: '%s %s' % (j[0], describe_case(j[1])))
+    run_jobs('E_oid_mutants', oid_mutant_strings(tier), oid_job, lambda j: '%s %s' % (j[0], j[1].hex()))
+    # E
+    if time.time() < deadline:
+        t0 = time.time()
+        items = mutant_items(tier)
+        res = vf.pmap(mut_job, items, case_timeout=300)
+        nacc = 0
+        classes = set(); targets = set()
+        for it, r in zip(items, res):
+            fname, case, tgt, label = it
+            classes.add(mut_class(label)); targets.add(tgt)
+            rec = {'cfg': CFG, 'kind': 'mut', 'fn': fname, 'case': cat.enc_case(case), 'target': tgt, 'label': label}
+            inp = [v for v in case.values() if isinstance(v, bytes)][0]
+            if 'harness_error' in r:
+                harness.append('mutant %s %s: %s' % (tgt, label, r['harness_error'][-600:])); continue
+            if 'crash' in r:
+                k, m = crash_info(r, label)
+                F.add(k, (len(inp), inp.hex(), 0), rec, '%s on mutant "%s" of %s (input %s): %s' % (fname, label, tgt, short_hex(inp), m), fname)
+                outcomes['%s crash' % fname] = outcomes.get('%s crash' % fname, 0) + 1
+                continue
+            o = '%s ret=%s' % (fname, r['ret'])
+            outcomes[o] = outcomes.get(o, 0) + 1
+            nacc += r['ret'] == 0
+            if r['msg']:
+                F.add(r['key'], (len(inp), inp.hex(), 0), rec, '%s on mutant "%s" of %s (input %s): %s [%s]' % (fname, label, tgt, short_hex(inp), r['msg'], r['kind']), fname)
+        parts['E_structure_mutants'] = dict(states=len(items), transitions=len(items), traces_validated_against_impl=len(items), evaluations=len(items), accepted=nacc,
+                                            mutation_classes=len(classes), targets=len(targets), wall_s=round(time.time() - t0, 1))
+        for i in (0, len(items) // 3, 2 * len(items) // 3):
+            samples.append({'mutant': items[i][3], 'of': items[i][2], 'fn': items[i][0]})
+    else:
+        capped.append('E_structure_mutants')
+    # F
+    if time.time() < deadline:
+        t0 = time.time()
+        cs = K.gen_cases(tier)
+        res = vf.pmap(corpus_job, cs, case_timeout=300)
+        for (f, c), r in zip(cs, res):
+            rec = {'cfg': CFG, 'kind': 'case', 'fn': f, 'case': cat.enc_case(c)}
+            if 'harness_error' in r:
+                harness.append('corpus %s: %s' % (f, r['harness_error'][-600:]))
+            elif 'crash' in r:
+                k, m = crash_info(r)
+                F.add(k, (0, cat.short(c), 0), rec, '%s [%s]: %s' % (f, describe_case(c), m), f)
+            else:
+                o = '%s ret=%s' % (f, r['ret'] if (r['ret'] or 0) < 1000 else 'len')
+                outcomes[o] = outcomes.get(o, 0) + 1
+                if r['msg']:
+                    F.add('corpus:%s' % f, (0, cat.short(c), 0), rec, '%s [%s]: %s' % (f, describe_case(c), r['msg']), f)
+        parts['F_corpus'] = dict(states=len(cs), transitions=len(cs), traces_validated_against_impl=len(cs), evaluations=len(cs), wall_s=round(time.time() - t0, 1))
+    else:
+        capped.append('F_corpus')
+    samples += [{'der_string': '1f0000', 'battery': DNAME[:12]}, {'char_alphabet': CHR_ALPH.decode('latin1'), 'size': len(CHR_ALPH)}, {'apdu_alphabet': APDU_ALPH.hex()}]
+    json.dump({'find': {k: [list(v[0]), v[1], v[2], v[3], v[4]] for k, v in F.d.items()}, 'parts': parts, 'outcomes': outcomes, 'samples': samples,
+               'harness': harness[:20], 'capped': capped}, open(outpath, 'w'))
+    return 0
+
+def jsonable(j):
+    if isinstance(j, (bytes, bytearray)):
+        return 'hex:' + bytes(j).hex()
+    if isinstance(j, (tuple, list)):
+        return [jsonable(x) for x in j][:8] if len(j) <= 8 or not all(isinstance(x, int) for x in j) else [int(j[0]), '...', int(j[-1])]
+    if isinstance(j, dict):
+        return {k: jsonable(v) for k, v in j.items()}
+    return j
+
+def short_hex(b):
+    return b.hex() if len(b) <= 40 else '%s..%s [%d octets]' % (b[:24].hex(), b[-8:].hex(), len(b))
+
+OBSERVATION_KEYS = ('obs:',)
+WHY = {
+    'der:tag-long-form-without-number-accepted': 'der.h: a long tag is (t_{r-1}|128)...t_0 with t_{r-1} != 0 and number >= 31, and decoders return SIZE_MAX on a format error',
+    'der:tag-ending-at-4th-or-last-octet-rejected': 'der.h: the tag is a u32 word that is the ready code, so 4-octet tags are tags (derEnc emits them); a tag whose last octet is the 4th / the last one of the buffer is complete',
+    'der:length-near-SIZE_MAX-wraps': 'der.h: derDec returns the exact length of the DER code [<=count]der, i.e. T, L and L octets of V lie inside the buffer',
+    'der:TSIZE-value-absent-or-short': 'der.h: INTEGER contents are o1...on with n >= 1 inside [<=count]der; the return value is the exact code length',
+    'der:OID-empty-or-unterminated-subidentifier-accepted': 'oid.h: n >= 2 numbers, every sub-identifier complete; property: accepted codes re-encode to themselves',
+    'der:OIDDec2-reads-past-the-end-of-the-expected-identifier': 'C08: a decoder touches nothing outside its input and the documented arguments (here: the NUL-terminated string oid)',
+    'der:PSTR-NUL-accepted': 'der.h / str.h: a printable string consists of letters, digits and " \'()+,-./:=?"; NUL is not among them',
+    'der:BIT-nonzero-padding-accepted': 'der.h: the bit string is padded with ZERO bits (DER, X.690 11.2.1); accepted code does not re-encode to itself',
+    'der:encoder-rejects-valid-tag': 'der.h: "the error is a wrong format of tag"; the word follows the tag grammar of der.h (and derTLDec accepts its code)',
+    'apdu:cmd:extended-Lc-0000-accepted': 'apdu.h item 5: the two value octets of an extended Lc are different from 0x0000',
+    'apdu:cmd:non-shortest-form-accepted': 'C08 (accepted => re-encodes to itself); apduCmdDec itself rejects the other non-shortest forms',
+    'sm:cmd-wrap-protected-field-over-65535-encoded': 'btok.h: ERR_OK = the command was encoded and protected; here Lc* is truncated mod 65536 and btokSMCmdUnwrap rejects the result',
+}
+
+def run(tier):
+    import json, subprocess, tempfile
+    import build as vbuild
+    chk = vf.Check(PROP, tier, deadline_s=600 if tier == 'quick' else 3600)
+    env = dict(os.environ)
+    env['LD_PRELOAD'] = vbuild.asan_runtime()
+    env['ASAN_OPTIONS'] = 'detect_leaks=0:abort_on_error=1:halt_on_error=1:allocator_may_return_null=1:detect_stack_use_after_return=0:handle_segv=1:' \
+                          'symbolize=0:fast_unwind_on_malloc=1:malloc_context_size=0:max_redzone=256:quarantine_size_mb=16:print_legend=0:print_summary=0'
+    fd, out = tempfile.mkstemp(prefix='c08', dir=vbuild.BUILD if os.path.isdir(vbuild.BUILD) else None); os.close(fd)
+    vbuild.build('asan')                # build before the child starts (build errors surface here)
+    r = subprocess.run([sys.executable, os.path.join(vf.VERIF, 'vcheck'), PROP, '--tier', tier, '--sub', 'all', '--out', out], env=env,
+                       stdout=subprocess.PIPE, stderr=subprocess.STDOUT, text=True)
+    try:
+        d = json.load(open(out))
+    except Exception:
+        chk.violation('harness', {'cfg': CFG, 'kind': 'none'}, 'sub-exploration failed: ' + r.stdout[-1500:])
+        return chk.finish('C08', '')
+    finally:
+        os.unlink(out)
+    for h in d['harness']:
+        chk.violation('harness:' + h[:40], {'cfg': CFG, 'kind': 'none'}, 'HARNESS ERROR ' + h)
+    for name, p in d['parts'].items():
+        chk.part(name, **p)
+        chk.cov['distinct_nontrivial'] += p.get('accepted', 0)
+    for c in d['capped']:
+        chk.cap(c + ' not run: deadline')
+    for o, n in d['outcomes'].items():
+        chk.outcome(o, n)
+    for s in d['samples']:
+        chk.sample(s)
+    for key, (sk, rec, msg, n, fns) in sorted(d['find'].items()):
+        full = '%s\n(%d disagreeing executions in this class; functions: %s)' % (msg, n, ', '.join(sorted(set(fns)))[:300])
+        if key in WHY:
+            full += '\nrule: ' + WHY[key]
+        if key.startswith(OBSERVATION_KEYS):
+            chk.observe('%s: %s (%d cases)' % (key, msg[:300], n)); continue
+        chk.outcome('finding ' + key, n)
+        chk.violation(key, rec, full)
+    chk.assumptions += [
+        'oracle = ref/codec.py (grammar of the public headers der.h, oid.h, apdu.h, hex.h, b64.h, dec.h) and ref/codec_st.py (ASN.1 structures parsed nested); gated by `--selftest` vectors',
+        'a DER length equal to SIZE_MAX is treated as outside the implementation limit (codec.LEN_MAX = SIZE_MAX - 1): SIZE_MAX is the error value of every decoder; derTLEnc emitting 88 FF..FF is logged as an observation',
+        'APDU: acceptance is judged against the grammar of apdu.h; a grammatical but non-shortest code may be rejected, but if accepted it must re-encode to itself (property statement)',
+        'secure messaging: non-shortest Lc* forms accepted by btokSMCmdUnwrap are not judged (neither btok.h nor apdu.h demands the shortest form); mismatching Lc*/Le* forms are (apdu.h item 4)',
+        'hex is case-insensitive by documentation: the re-encoding relation is hexFrom(hexTo(s)) == upper(s)',
+        'bpki: only the iteration count 10000 and one salt are used (any other admissible count costs up to hours of PBKDF2); CV certificates are decoded without and with signature check',
+        'over-reads are observed per string by a guard page behind the exact-size copy and, for every string, by ASan redzones around an exact-size malloc copy; reads BEFORE the copy only by ASan',
+        'the cofactor of ECParameters (OPTIONAL) and zero access words of CV certificates (btok.h: may be present, are dropped on encoding) are the documented exceptions from re-encoding identity']
+    return chk.finish('C08', 'A: every octet string of the stated length families through 16 DER decoders on exact-size copies, table vs codec.py; B: every string over the '
+                      '%d-character alphabet; C: every APDU string over 5 octets up to length 7 + Lc/Le form products; D: encoders over boundary alphabets; '
+                      'E: structure-aware mutants (truncations, tag forms, length forms, INTEGER / OID / PSTR / BIT content forms, container edits) of valid codes; '
+                      'states = distinct inputs, transitions = executions of the battery / call sequence' % len(CHR_ALPH))
+
+def replay(rec):
+    global CFG
+    k = rec.get('kind')
+    CFG = rec.get('cfg', CFG)
+    if k == 'der':
+        return replay_der(rec)
+    if k == 'chr':
+        return replay_chr(rec)
+    if k == 'apdu':
+        return replay_apdu(rec)
+    if k == 'mut':
+        return replay_mut(rec)
+    if k == 'case':
+        r = vf.pmap(enc_job, [(rec['fn'], cat.dec_case(rec['case']))], nproc=1)[0]
+        if 'crash' in r:
+            return crash_info(r)[1]
+        if 'harness_error' in r:
+            return 'harness error ' + r['harness_error'][-300:]
+        for kk, (sk, rc, msg, n, fns) in r['find'].items():
+            return msg
+        return None
+    if k == 'job':
+        return 'a whole enumeration job crashed: ' + str(rec.get('job'))[:200]
+    return None
